@@ -40,7 +40,7 @@ func putSetting(db clickhouse.Conn, tp string, name string, value string) error 
 	_name := fmt.Sprintf(`{"type":%s, "name":%s`, strconv.Quote(tp), strconv.Quote(name))
 	fp := heputils.FingerprintLabelsDJBHashPrometheus([]byte(_name))
 	err := db.Exec(context.Background(), `INSERT INTO settings (fingerprint, type, name, value, inserted_at)
-VALUES ($1, $2, $3, $4, NOW())`, fp, tp, name, value)
+VALUES ($1, $2, $3, $4, now64(9))`, fp, tp, name, value)
 	return err
 }
 
